@@ -205,9 +205,10 @@ static int vp_k_epoll_wait_common(int epfd, struct epoll_event *events, int maxe
 		rev = vp_kf[fd].ready & ((g->events & (EPOLLIN | EPOLLOUT | EPOLLRDHUP)) | EPOLLERR | EPOLLHUP);
 		if (!rev || n >= maxevents) continue;
 		events[n].events = rev;
-		/* one whole-union write (the registered 64-bit user data: the back end zeroes it and sets .fd); two partial
-		 * writes would leave cbmc with an unfoldable byte_update and a symbolic fd in the caller */
-		events[n].data.u64 = (uint64_t)(uint32_t)g->data_fd;
+		/* only the member the back ends read is written (epoll_data_t's representation in cbmc is its first member,
+		 * a pointer: anything written through .u64 comes back from .fd as an unfoldable bit-extract of a pointer
+		 * constant and the caller's fd becomes symbolic); the other bytes keep what the caller's buffer held */
+		events[n].data.fd = g->data_fd;
 		n++;
 	}
 	return n;
